@@ -41,6 +41,10 @@ func (s *fileDisk) Finalize() {
 		p.buffer = nil
 	}
 
+	// a part can end with a seek past the last written byte: the RAM copy of the part
+	// includes the skipped range, so make the file as long as the size we report.
+	s.f.Truncate(int64(s.finalSize)) //nolint:errcheck
+
 	s.f.Close()
 	s.f = nil
 }
